@@ -3,7 +3,8 @@
     with d > 0; [fval_lt]/[fval_eq] compare values by cross multiplication. *)
 From Dashu Require Import Base.Prelude Float.RoundSpec Ratio.SimplestSpec Ratio.SimplestModel Ratio.SimplerOrder
   Ratio.SimplestProof Ratio.SimplestAsis Ratio.FareyProof Ratio.FareyNext Ratio.FareyNearest Ratio.SimplestFindings
-  Ratio.SimplestClosed Ratio.SimplestFloatEq Ratio.SimplestIeeeEq Ratio.RoundPreimage Ratio.FloatPreimage
+  Ratio.SimplestClosed Ratio.SimplestFloatEq Ratio.SimplestIeeeEq Ratio.SimplestIeeeFixed Ratio.RoundPreimage Ratio.FloatPreimage Ratio.IeeePreimage
+  Ratio.SimplestFromFloatCorrect
   Ratio.ErrorBoundsTableProof.
 From DashuGen Require Import ErrorBoundsTable.
 Open Scope Z_scope.
@@ -123,7 +124,8 @@ Theorem C18_simplest_from_float_glue : forall B md p sig0 ex0, 0 < B ->
 Proof. exact simplest_from_float_asis_closed. Qed.
 Print Assumptions C18_simplest_from_float_glue.
 
-(** ... and of impl_simplest_from_float! (f32/f64) *)
+(** ... and of impl_simplest_from_float! (f32/f64, after the repair of F04: the end points are computed from
+    the decoded mantissa and exponent in units of ulp/4) *)
 Theorem C18_simplest_from_ieee_glue : forall mb eb bits,
   let E := (bits / 2 ^ mb) mod 2 ^ eb in
   let M := bits mod 2 ^ mb in
@@ -131,14 +133,32 @@ Theorem C18_simplest_from_ieee_glue : forall mb eb bits,
   let man0 := if E =? 0 then M else M + 2 ^ mb in
   let man := if neg then - man0 else man0 in
   let ex := (if E =? 0 then 1 else E) - (2 ^ (eb - 1) - 1) - mb in
-  let est : frac := if 0 <=? ex then (man * 2 ^ ex, 1) else (man, 2 ^ (- ex)) in
+  let tz := if (Z.abs man =? 2 ^ mb) && (1 - (2 ^ (eb - 1) - 1) - mb <? ex) then 1 else 2 in
+  let outer := if 0 <? man then 4 * man + 2 else 4 * man - 2 in
+  let inner := if 0 <? man then 4 * man - tz else 4 * man + tz in
   simplest_from_ieee_asis mb eb bits =
+  if E =? 2 ^ eb - 1 then Ok None
+  else if (E =? 0) && (M =? 0) then Ok (Some (0, 1))
+  else opt_wrap (simplest_closed (scaled 2 outer (ex - 2) 1, scaled 2 inner (ex - 2) 1, Z.even bits, Z.even bits)).
+Proof. exact simplest_from_ieee_asis_closed. Qed.
+Print Assumptions C18_simplest_from_ieee_glue.
+
+(** the pinned (pre-repair) macro body: end points (2n +- 1) / 2d of the doubled Repr::try_from(f) *)
+Theorem C18_simplest_from_ieee_pinned_glue : forall mb eb bits,
+  let E := (bits / 2 ^ mb) mod 2 ^ eb in
+  let M := bits mod 2 ^ mb in
+  let neg := (bits / 2 ^ (mb + eb)) mod 2 =? 1 in
+  let man0 := if E =? 0 then M else M + 2 ^ mb in
+  let man := if neg then - man0 else man0 in
+  let ex := (if E =? 0 then 1 else E) - (2 ^ (eb - 1) - 1) - mb in
+  let est : frac := if 0 <=? ex then (man * 2 ^ ex, 1) else (man, 2 ^ (- ex)) in
+  simplest_from_ieee_pinned mb eb bits =
   if E =? 2 ^ eb - 1 then Ok None
   else if (E =? 0) && (M =? 0) then Ok (Some (0, 1))
   else opt_wrap (simplest_closed (freduce (2 * fst est + 1, 2 * snd est), freduce (2 * fst est - 1, 2 * snd est),
                                   Z.even bits, Z.even bits)).
-Proof. exact simplest_from_ieee_asis_closed. Qed.
-Print Assumptions C18_simplest_from_ieee_glue.
+Proof. exact simplest_from_ieee_pinned_closed. Qed.
+Print Assumptions C18_simplest_from_ieee_pinned_glue.
 
 (** outside the open finding classes F06 (odd base, half modes) and F07 (powers of the base) - F05 and F08 are
     repaired - the FBig code computes the specified optimum:
@@ -156,14 +176,20 @@ Theorem C18_simplest_from_float_unlimited_unless_known : forall B md sig ex, 2 <
 Proof. exact simplest_from_float_asis_spec_unlimited_all. Qed.
 Print Assumptions C18_simplest_from_float_unlimited_unless_known.
 
-(** outside finding F04 (ulp >= 2) the f32/f64 macro computes the specified optimum, for every
-    format with at least one mantissa bit and every bit pattern (incl. subnormals, powers of two,
-    both signs, infinities and NaN) *)
+(** after the repair of F04 the f32/f64 macro computes the specified optimum for every format with at
+    least one mantissa bit and EVERY bit pattern (subnormals, powers of two, ulp >= 2, both signs,
+    infinities and NaN): no finding class is left *)
 Theorem C18_simplest_from_ieee_unless_known : forall mb eb bits, 1 <= mb ->
-  known_ieee mb eb bits = false ->
   simplest_from_ieee_asis mb eb bits = simplest_from_ieee_spec mb eb bits.
-Proof. exact simplest_from_ieee_asis_spec. Qed.
+Proof. exact simplest_from_ieee_asis_spec_all. Qed.
 Print Assumptions C18_simplest_from_ieee_unless_known.
+
+(** the pinned body was right exactly outside the class of F04 (ulp <= 1) *)
+Theorem C18_simplest_from_ieee_pinned_unless_known : forall mb eb bits, 1 <= mb ->
+  known_ieee mb eb bits = false ->
+  simplest_from_ieee_pinned mb eb bits = simplest_from_ieee_spec mb eb bits.
+Proof. exact simplest_from_ieee_pinned_spec. Qed.
+Print Assumptions C18_simplest_from_ieee_pinned_unless_known.
 
 (** ** the ErrorBounds table of float/src/round.rs, REGENERATED on every run (gen/ErrorBoundsTable.v,
     tools/translate_c18.py), evaluates to the hand-written as-is model for every base, mode,
@@ -204,7 +230,50 @@ Theorem C18_float_interval_is_preimage : forall B md p sig ex x,
 Proof. exact float_interval_is_preimage. Qed.
 Print Assumptions C18_float_interval_is_preimage.
 
-(** ** findings: the repaired defects (F01-F03, F05, F08) stay refuted on the pinned bodies, the open ones on the as-is models *)
+(** f32/f64 (any binary format with mb >= 1 mantissa bits): for every finite non-zero bit pattern (normal,
+    subnormal, powers of two, both signs) a canonical fraction x belongs to the interval the specification
+    of simplest_from_f32/f64 uses iff x rounds to the float under round-to-nearest, ties to even: the
+    rounding position k is the one of x's binade (mb+1 significant bits) but never below emin
+    (fixed-point rounding of subnormals), the integer rounding is spec_round MHalfEven *)
+Theorem C18_ieee_interval_is_preimage : forall mb eb bits i x, 1 <= mb -> 0 <= eb ->
+  ieee_interval_spec mb eb bits = Some (Some i) -> canon x ->
+  (member i x <->
+   exists k, 1 - (2 ^ (eb - 1) - 1) - mb <= k /\
+     Z.abs (fst (qscale 2 k x)) < 2 ^ (mb + 1) * snd (qscale 2 k x) /\
+     (k = 1 - (2 ^ (eb - 1) - 1) - mb \/ 2 ^ mb * snd (qscale 2 k x) <= Z.abs (fst (qscale 2 k x))) /\
+     ieee_value mb eb bits = scaled 2 (spec_round MHalfEven (fst (qscale 2 k x)) (snd (qscale 2 k x))) k 1).
+Proof. exact ieee_interval_is_preimage. Qed.
+Print Assumptions C18_ieee_interval_is_preimage.
+
+(** ** end to end: the answer is THE simplest canonical fraction among those that round back to the float *)
+(** the specification of simplest_from_float, every base / mode / precision >= 1 / non-zero significand *)
+Theorem C18_simplest_from_float_spec_meaning : forall B md p sig ex,
+  2 <= B -> 1 <= p -> sig <> 0 -> ndigits B (Z.abs sig) <= p ->
+  exists r, simplest_from_float_spec B md p sig ex = Ok (Some r) /\ canon r /\
+    rounds_to B md p r (scaled B sig ex 1) /\
+    forall s, canon s -> rounds_to B md p s (scaled B sig ex 1) -> s <> r -> simpler r s = true.
+Proof. exact simplest_from_float_spec_meaning. Qed.
+Print Assumptions C18_simplest_from_float_spec_meaning.
+
+(** the code (as-is model) of simplest_from_float outside the two open classes F06, F07 *)
+Theorem C18_simplest_from_float_correct : forall B md p sig ex,
+  2 <= B -> 1 <= p -> sig mod B <> 0 -> ndigits B (Z.abs sig) <= p -> known_float B md p sig = false ->
+  exists r, simplest_from_float_asis B md p sig ex = Ok (Some r) /\ canon r /\
+    rounds_to B md p r (scaled B sig ex 1) /\
+    forall s, canon s -> rounds_to B md p s (scaled B sig ex 1) -> s <> r -> simpler r s = true.
+Proof. exact simplest_from_float_correct. Qed.
+Print Assumptions C18_simplest_from_float_correct.
+
+(** the code (as-is model) of simplest_from_f32/f64: every format, every finite non-zero bit pattern *)
+Theorem C18_simplest_from_ieee_correct : forall mb eb bits i, 1 <= mb -> 0 <= eb ->
+  ieee_interval_spec mb eb bits = Some (Some i) ->
+  exists r, simplest_from_ieee_asis mb eb bits = Ok (Some r) /\ canon r /\
+    ieee_rounds_to mb eb r (ieee_value mb eb bits) /\
+    forall s, canon s -> ieee_rounds_to mb eb s (ieee_value mb eb bits) -> s <> r -> simpler r s = true.
+Proof. exact simplest_from_ieee_correct. Qed.
+Print Assumptions C18_simplest_from_ieee_correct.
+
+(** ** findings: the repaired defects (F01-F05, F08) stay refuted on the pinned bodies, the open ones on the as-is models *)
 Theorem C18_F01_is_simpler_than_pinned_refuted :
   simpler (1, 2) (5, 3) = true /\ is_simpler_than_pinned (1, 2) (5, 3) = false.
 Proof. exact is_simpler_than_pinned_refuted. Qed.
@@ -222,7 +291,8 @@ Print Assumptions C18_F03_next_up_pinned_refuted.
 
 Theorem C18_F04_simplest_from_ieee_refuted :
   known_ieee 23 8 1275068416 = true /\
-  simplest_from_ieee_asis 23 8 1275068416 = Ok (Some (33554432, 1)) /\
+  simplest_from_ieee_pinned 23 8 1275068416 = Ok (Some (33554432, 1)) /\
+  simplest_from_ieee_asis 23 8 1275068416 = Ok (Some (33554431, 1)) /\
   simplest_from_ieee_spec 23 8 1275068416 = Ok (Some (33554431, 1)).
 Proof. exact simplest_from_ieee_asis_refuted. Qed.
 Print Assumptions C18_F04_simplest_from_ieee_refuted.
